@@ -13,4 +13,18 @@ SPECS = [
     dict(name="lg_human_hidden", qual="HumanOutputFormat.write", start=r"^if excluded\b", end=None, kind="test",
          inputs=[("not_none", "bool"), ("has_stdout", "bool"), ("has_log", "bool")],
          subst={"excluded is not None": "not_none", "'stdout' in excluded": "has_stdout", "'log' in excluded": "has_log"}),
+    # ---- extension ----
+    # CSV header rewrite: what is appended to every physical line (the separator times the number of new keys)
+    dict(name="lg_csv_pad", qual="CSVOutputFormat.write", start=r"^self\.file\.write\(self\.separator", end=None, kind="subexpr", pick=r"self\.separator.*", ret="Z",
+         inputs=[("sep", "Z"), ("n_extra", "Z")], subst={"self.separator": "sep", "len(extra_keys)": "n_extra"}),
+    # Logger.log: level filter; Logger.dump: nothing happens when logging is disabled
+    dict(name="lg_log_emits", qual="Logger.log", start=r"^if self\.level\b", end=None, kind="test",
+         inputs=[("cfg", "Z"), ("level", "Z")], subst={"self.level": "cfg"}),
+    dict(name="lg_dump_disabled", qual="Logger.dump", start=r"^if self\.level\b", end=None, kind="test",
+         inputs=[("cfg", "Z"), ("DISABLED", "Z")], subst={"self.level": "cfg"}),
+    # HumanOutputFormat._truncate: when a key / value is cut
+    dict(name="lg_truncates", qual="HumanOutputFormat._truncate", start=r"^if len\(string\)", end=None, kind="test",
+         inputs=[("n", "Z"), ("max_length", "Z")], subst={"len(string)": "n", "self.max_length": "max_length"}),
+    dict(name="lg_truncate_keep", qual="HumanOutputFormat._truncate", start=r"^string = ", end=None, kind="subexpr", pick=r"self\.max_length .*", ret="Z",
+         inputs=[("max_length", "Z")], subst={"self.max_length": "max_length"}),
 ]
